@@ -384,7 +384,7 @@ func (g *G) genFuncCall(label string) string {
 		name := pickStr(g, envNames, label+"-env")
 		switch g.draw(3, label+"-def") {
 		case 0:
-			return fmt.Sprintf(`%%env(%s, %s)%%`, goStringLit(name), g.fnArg(goStringLit(g.genTextNoPercent(label+"-d")), "string", label+"-d"))
+			return fmt.Sprintf(`%%env(%s, %s)%%`, goStringLit(name), g.fnArg(g.fnStringLit(label+"-d"), "string", label+"-d"))
 		case 1:
 			if g.O.Behavioural {
 				return fmt.Sprintf(`%%env(%s)%%`, goStringLit(name)) // fails when the variable is unset
@@ -405,7 +405,7 @@ func (g *G) genFuncCall(label string) string {
 		g.L.Add("fn:todo")
 		if g.flip(label + "-msg") {
 			if g.chance(40, label+"-msgtext") {
-				return fmt.Sprintf(`%%todo(%s)%%`, g.fnArg(goStringLit(g.genTextNoPercent(label+"-m")), "string", label+"-m"))
+				return fmt.Sprintf(`%%todo(%s)%%`, g.fnArg(g.fnStringLit(label+"-m"), "string", label+"-m"))
 			}
 			return `%todo("not yet")%`
 		}
@@ -428,7 +428,7 @@ func (g *G) genFuncCall(label string) string {
 	case 2:
 		return fmt.Sprintf(`%%%s(%s)%%`, fn, g.fnArg("1.5", "float", label+"-f"))
 	}
-	return fmt.Sprintf(`%%%s(%s)%%`, fn, g.fnArg(goStringLit(g.genTextNoPercent(label+"-s")), "string", label+"-s"))
+	return fmt.Sprintf(`%%%s(%s)%%`, fn, g.fnArg(g.fnStringLit(label+"-s"), "string", label+"-s"))
 }
 
 // fnArgTexts: string contents that a careless re-tokenisation of a function call would damage.
@@ -441,6 +441,16 @@ func (g *G) genTextNoPercent(label string) string {
 		return pickStr(g, fnArgTexts, label+"-h")
 	}
 	return strings.ReplaceAll(rapid.StringMatching(`[a-zA-Z0-9 _:/.,()'-]{0,6}`).Draw(g.T, label), "%", "")
+}
+
+// fnStringLit returns a Go string literal for a function argument; a few of them spell a percent sign with an escape
+// (a literal % cannot appear inside a token), so that the evaluated text contains format verbs.
+func (g *G) fnStringLit(label string) string {
+	if g.chance(8, label+"-pct") {
+		g.L.Add("fnarg:escaped-percent-in-string")
+		return pickStr(g, []string{`"100\x25 sure"`, `"\x25d \x25s"`, `"50\u0025"`, `"\x25!v(MISSING)"`, `"a\tb\x25"`}, label+"-p")
+	}
+	return goStringLit(g.genTextNoPercent(label))
 }
 
 // fnArg optionally dresses a Go literal up as another Go expression with the same value: parentheses or a
